@@ -243,6 +243,21 @@ class Flow:
         for p in ps:
             if p["kind"] in ("asm", "while", "unknown") and (data_idx or holds_key):
                 unknown.append("%s: construct at line %s not analysed" % (f.name, p["line"]))
+            # whether (or how) public storage is written must not be decided by a secret: the bytes written, masked or not, would
+            # tell which way the condition went (e.g. `if (key[i]*h*w == 0) trivial(row) else encrypt(row)`)
+            if p["kind"] in ("store", "call") and (data_idx or holds_key) and any(T(g_) for g_ in p["guards"]):
+                tgt = p["lv"] if p["kind"] == "store" else next((a_ for a_ in p["args"] if a_ is not None and isinstance(a_, tuple)
+                                                                 and a_[0] in ("addr", "idx", "fld", "sym") and not self.is_key_object(a_, roots)
+                                                                 and sym.root_of(a_) is not None and sym.root_of(a_)[0] == "sym"
+                                                                 and not T(a_) and self.dest_record(sym.idx(a_, ZERO), roots) not in SECRET_RECORDS
+                                                                 and self.rec_of(a_, roots) is not None), None)
+                if tgt is not None and sym.root_of(tgt) is not None and sym.root_of(tgt)[0] == "sym" and \
+                        (p["kind"] == "call" or self.dest_record(tgt, roots) not in SECRET_RECORDS) and not (p["kind"] == "store" and p.get("byref")):
+                    gsec = next(g_ for g_ in p["guards"] if T(g_))
+                    refuted.append({"fn": f.name, "where": "%s:%s" % (f.file, p["line"]), "slot": sym.show(tgt)[:80],
+                                    "val": sym.show(p["val"])[:80] if p["kind"] == "store" else p["name"], "chain": [f.name],
+                                    "detail": "the write happens only when %s, a condition computed from secret-key data: which rows are written "
+                                              "this way (in the clear or not) reveals the secret" % sym.show(gsec)[:100]})
             if p["kind"] == "store":
                 lv, val = p["lv"], p["val"]
                 if not T(val):
